@@ -182,6 +182,8 @@ case "$cmd" in
     export VERIF_TIER=$tier
     bin="$TD/default/release/check"
     [ "$cmd" = "C16" ] && [ -z "${JMV_C16_TYPELEVEL_ONLY:-}" ] && bin="$TD/sync/release/check"
+    # (JMV_ONLY_SUB=<name> restricts the run to one sub-check: a development aid, never used by MANIFEST commands)
+    if [ -n "${JMV_ONLY_SUB:-}" ]; then exec "$bin" "$cmd" --tier "$tier" --sub "$JMV_ONLY_SUB"; fi
     exec "$bin" "$cmd" --tier "$tier"
     ;;
   *)
